@@ -85,7 +85,16 @@ def _one(args):
     pm = parse_message(out['msg'])
     out['pm'] = pm
     toks = r['toks']
-    out['toks'] = [{'ln': t.lineno, 'idx': t.index, 'val': codes(str(t.value))} for t in toks]
+    # the token AS WRITTEN: the source characters the lexer matched (sly records start and end), not the token value,
+    # which lexer actions may have rewritten
+    src_text = r['stripped']
+
+    def lexeme(t):
+        e_ = getattr(t, 'end', None)
+        if isinstance(e_, int) and e_ > t.index:
+            return src_text[t.index:e_]
+        return str(t.value)
+    out['toks'] = [{'ln': t.lineno, 'idx': t.index, 'val': codes(str(t.value)), 'lex': codes(lexeme(t)), 'ty': t.type} for t in toks]
     # the offending token according to the (TLC-validated) driver trace
     bad = None
     for e in r['trace']['events']:
@@ -130,6 +139,16 @@ def build_cases(ctx, n_stmts, muts):
             fancy = rng.random() < 0.7
             cases.append((relayout(m, rng, fancy), kind + ('+layout' if fancy else '')))
         cases.append((relayout(s, rng, True) + rng.choice([' ☃', ' \\', ' #', '\n ~~ §']), 'illegal-char'))
+    # two-word operators / keywords written with several blanks or a tab between the words, as the offending token and as
+    # the last token before a premature end (the caret must cover / follow the token AS WRITTEN)
+    for op in ('is not', 'not in', 'not like', 'not exists', 'group by', 'order by', 'partition by', 'primary key', 'nulls first',
+               'nulls last', 'if exists', 'not match'):
+        a_, b_ = op.split()
+        for gap in ('   ', '\t', ' \t  '):
+            m2 = a_ + gap + b_
+            for tmpl in ('select * from t where %s null', 'select a from t where b %s', 'select a, %s from t', 'drop table %s t x y',
+                         'select a from t %s', '%s select', 'select a from t where b = 1 %s %s c'):
+                cases.append((tmpl.replace('%s', m2), 'two-word-token-with-gap'))
     # illegal characters after line ends other than LF and after characters that str.splitlines() (but not the lexer)
     # treats as line ends: CRLF texts, form feed / U+2028 / NEL / vertical tab inside string literals
     for s in pick[:max(20, n_stmts // 8)]:
@@ -219,6 +238,15 @@ def run(ctx):
         flags = mver[j + 1]
         n_caret_checked += 1
         if 'Caret' in flags or 'LexCaret' in flags:
+            bt = x.get('bad')
+            tk = x.get('toks') or []
+            if bt and bt <= len(tk) and tk[bt - 1].get('lex') != tk[bt - 1].get('val'):
+                # the offending token is one whose VALUE the lexer rewrote (string quotes/escapes, @variables): the message is
+                # built from values, so the carets cover the rewritten text, not what was written
+                ctx.violation('caret:offending-token-value-rewritten:%s' % tk[bt - 1].get('ty'),
+                              'the carets cover the rewritten token value, not the token as written',
+                              {'sql': x['sql'], 'msg': x['msg'], 'bad_token_index': bt, 'kind': x['kind']})
+                continue
             ctx.violation('caret:%s:%s' % (x['pm']['kind'], feature(x)),
                           'the caret line does not mark exactly the offending token in the line printed above it',
                           {'sql': x['sql'], 'msg': x['msg'], 'bad_token_index': x.get('bad'), 'kind': x['kind']})
